@@ -119,7 +119,7 @@ func vhPlainRule() core.Map {
 }
 
 type vhC15Ref struct {
-	scheduled bool   // a scheduled rule is stored under the id
+	scheduled bool // a scheduled rule is stored under the id
 	schedule  string
 	live      bool
 	dependsOn string // deleteWith target ("" none)
@@ -239,5 +239,72 @@ func VH_C15_witness_cascade(kind int) {
 	vhC15Op(e, ref, 4)
 	vhC15Op(e, ref, 5)
 	vhC15Check(e, ref)
+	vreach("end")
+}
+
+// VH_C15_oneshot_cond: a one-shot scheduled rule with a condition: its due tick evaluates
+// the condition; whether or not the condition holds, the one-shot is spent — the rule is
+// deleted after that tick and a later reload does not register it again. holds: a fact
+// satisfying the condition exists (1) or not (0).
+func VH_C15_oneshot_cond(kind, holds int) {
+	e := vhC15New(kind, false)
+	r := vhSchedRule("+1h")
+	r["condition"] = map[string]interface{}{"pattern": map[string]interface{}{"c": "?y"}}
+	_, err := e.loc.AddRule(e.ctx, "r0", r)
+	vassume(err == nil)
+	if holds == 1 {
+		_, err = e.loc.AddFact(e.ctx, "f", core.Map{"c": "v"})
+		vassume(err == nil)
+	}
+	vassert(e.cronner.find("here", "r0") >= 0, "registered-iff-live-scheduled-rule")
+	e.rec.ran = nil
+	e.loc.ProcessEvent(e.ctx, core.Map{"trigger!": "r0"})
+	vassert(len(e.rec.ran) == holds, "tick-runs-actions-iff-condition-holds")
+	_, gerr := e.loc.GetRule(e.ctx, "r0")
+	vassert(gerr != nil, "one-shot-rule-deleted-after-run")
+	vreach("end")
+}
+
+// VH_C13_hooked (property C13, in package cron because it needs the cron hooks a System
+// installs): a fact whose "rule" has an ill-typed "schedule" is refused by the add hook;
+// after that refusal (or acceptance) the location still dispatches its other rules.
+// sk: the JSON kind of the odd schedule (0 number, 1 null, 2 bool, 3 array, 4 map,
+// 5 empty string); withWhen: the odd rule also has a when-pattern.
+func VH_C13_hooked(kind, sk, withWhen int) {
+	e := vhC15New(kind, false)
+	_, err := e.loc.AddRule(e.ctx, "r0", vhPlainRule())
+	vassume(err == nil)
+	var sched interface{}
+	switch sk {
+	case 0:
+		sched = float64(vsymInt("sched.n", 0, 99))
+	case 1:
+		sched = nil
+	case 2:
+		sched = vsymBool("sched.b")
+	case 3:
+		sched = []interface{}{"+1s"}
+	case 4:
+		sched = map[string]interface{}{"in": "+1s"}
+	case 5:
+		sched = ""
+	}
+	rule := map[string]interface{}{"schedule": sched, "action": map[string]interface{}{"endpoint": "vh", "code": "x"}}
+	if withWhen == 1 {
+		rule["when"] = map[string]interface{}{"pattern": map[string]interface{}{"a": "?y"}}
+	}
+	e.loc.AddFact(e.ctx, "odd", core.Map{"rule": rule}) // refused or accepted: both are answers
+	e.rec.ran = nil
+	_, cond := e.loc.ProcessEvent(e.ctx, core.Map{"a": "1"})
+	vassert(cond == nil, "canary-after-op")
+	n := 0
+	for _, id := range e.rec.ran {
+		if id == "r0" {
+			n++
+		}
+	}
+	vassert(n == 1, "canary-after-op")
+	_, err = e.loc.AddFact(e.ctx, "later", core.Map{"k": "v"})
+	vassert(err == nil, "canary-after-op")
 	vreach("end")
 }
